@@ -10,9 +10,9 @@ Open Scope list_scope.
 """
 
 FOOTER = """
-Definition verdicts := Eval vm_compute in map (fun h => check_from %(model)s %(init)s 0 h) histories.
+Definition verdicts := Eval vm_compute in map %(check_fn)s histories.
 Print verdicts.
-Definition ambiguous := Eval vm_compute in map (fun h => ambiguous_from %(model)s %(init)s 0 h) histories.
+Definition ambiguous := Eval vm_compute in map %(ambig_fn)s histories.
 Print ambiguous.
 %(oracles)s
 Print n_discarded.
@@ -42,15 +42,16 @@ def parse_optlist(s):
     return [None if x == "None" else int(x.split()[1]) for x in re.findall(r"None|Some \d+", s)]
 
 
-STIMS = ["SCall", "SAddPipe", "SDropPipe", "SDeliver", "SHold", "SRelease", "SPass"]
+STIMS = ["SCall", "SAddPipe", "SDropPipe", "SDeliver", "SHold", "SRelease", "SPass", "KListen", "KListenAgain", "KConnect", "KCloseListener", "KNewDialer", "KDial", "KResolve", "KCloseDialer", "KPipeFail", "KPipeClose", "KHookPolicy", "KProtoRefuse", "KCloseSock", "KPass"]
 CALLS = ["CSend", "CRecv", "CSetOpt", "COpenCtx", "CCloseCtx", "CCloseSock"]
 
 
-def run(res, pid, proto, imports, model, init, oracles, what_mismatch, env=None, gocmd=None):
+def run(res, pid, proto, imports, model, init, oracles, what_mismatch, env=None, gocmd=None, check_fn=None, ambig_fn=None, prelude=""):
     """oracles: list of (name, coq_function, description). Returns number of concrete findings."""
     ortext = "\n".join("Definition %s := Eval vm_compute in map %s histories.\nPrint %s." % (n, f, n) for n, f, _ in oracles)
-    header = HEADER % {"imports": imports}
-    footer = FOOTER % {"model": model, "init": init, "oracles": ortext}
+    header = HEADER % {"imports": imports} + prelude
+    footer = FOOTER % {"check_fn": check_fn or "(fun h => check_from %s %s 0 h)" % (model, init),
+                       "ambig_fn": ambig_fn or "(fun h => ambiguous_from %s %s 0 h)" % (model, init), "oracles": ortext}
     shards, (rc, so, se) = core.gen_and_eval_sharded(pid, gocmd or ("l1" + proto), header, footer, goargs=None, env=env, sub="")
     found = 0
     if shards is None:
